@@ -217,7 +217,41 @@ def minimise(prop, spec, schedule, violations, runs=2000, secs=60):
                             continue
                     i += 1
     spec, schedule, out = best
+    if not spec.get("keep_files"):
+        pr = prune(spec)
+        o2 = attempt(prop, pr, schedule, want, Budget(1, 30))
+        if o2 is not None:
+            spec, out = pr, o2
+            schedule = o2["schedule"] if o2["schedule"] is not None else schedule
     return spec, schedule, out, budget.used
+
+
+def prune(spec):
+    """Remove what no operation refers to: instances, files, labels (no re-execution semantics change)."""
+    s = copy.deepcopy(spec)
+    s.pop("labels", None)
+    used_files = set()
+    for t in s["tasks"]:
+        for kind, key in (("parsers", "p"), ("matchers", "m"), ("compilers", "c"), ("streams", "s")):
+            inst = t.get(kind) or []
+            used = sorted({op[key] for op in t["ops"] if op.get(key) is not None and key in op})
+            remap = {old: new for new, old in enumerate(used)}
+            t[kind] = [inst[i] for i in used if i < len(inst)]
+            for op in t["ops"]:
+                if op.get(key) is not None and key in op:
+                    op[key] = remap[op[key]]
+        for op in t["ops"]:
+            if op.get("path"):
+                used_files.add(op["path"])
+            for p in op.get("paths", ()):
+                used_files.add(p)
+            for p in op.get("argv", ()):
+                used_files.add(p)
+    fs = s.get("fs") or {}
+    for k in ("files", "binfiles", "faults"):
+        if fs.get(k):
+            fs[k] = {p: v for p, v in fs[k].items() if p in used_files or k == "files" and p in s.get("keep_files", ())}
+    return s
 
 
 def job(args):
